@@ -516,8 +516,8 @@ def pure_json(j):
     import math
     if j is None or isinstance(j, bool):
         return True
-    if isinstance(j, enum.Enum):
-        return False
+    if isinstance(j, enum.Enum) and not isinstance(j, (str, int, float)):
+        return False        # a member of a plain enum; a member of a mix-in enum IS a str/int/float (json.dumps renders it so)
     if isinstance(j, (str, int)):
         return True
     if isinstance(j, float):
@@ -525,7 +525,7 @@ def pure_json(j):
     if isinstance(j, list):
         return all(pure_json(x) for x in j)
     if isinstance(j, dict):
-        return all((k is None or (isinstance(k, (str, int, float, bool)) and not isinstance(k, enum.Enum))) and pure_json(x)
+        return all((k is None or isinstance(k, (str, int, float, bool))) and pure_json(x)
                    for k, x in j.items())
     return False
 
